@@ -106,7 +106,73 @@ def run(ctx, run):
     _bcd_digit_bounds(ctx, run)
     _total_decoders(ctx, run)
     _dc3_exact(ctx, run)
+    _sign_is_one_bit(ctx, run)
     neg.helper_contract(ctx, run)
+
+def _sign_is_one_bit(ctx, run):
+    """8/30 format 1 local time offset: magnitude and sign come from one byte.  The branch that negates the
+    offset is a two-valued decision about the sign, so it depends on exactly one bit of that byte, and on none of
+    the bits the magnitude is taken from (bit provenance of the branch condition; RF-BITS)."""
+    P = ctx.prog
+    f = P.need("vbi_decode_teletext_8301_local_time", UNIT_830)
+    run.touch(f)
+    ev = bits.Eval(ctx, f)
+    n = 0
+    for bid, i in flow.all_events(f):
+        for lhs, var, op, rhs in flow.stores(f, i):
+            if lhs is None or rhs is None or op != "=":
+                continue
+            l, r = f.exprs[ex.skip(f, lhs)], f.exprs[ex.skip(f, rhs)]
+            if not (l["k"] == "ref" and r["k"] == "un" and r["op"] == "-"):
+                continue
+            rr = f.exprs[ex.skip(f, r["c"][0])]
+            if not (rr["k"] == "ref" and rr.get("name") == l.get("name")):
+                continue
+            # the innermost dominating branch
+            de = flow.dominating_edges(f, bid)
+            if not de:
+                continue
+            src, lab, cond = de[0]
+            if cond is None:
+                continue
+            n += 1
+            vb = ev.ev({}, cond)
+            dep = sorted({(b[1], b[2]) for b in vb if isinstance(b, tuple) and b[0] == "in"})
+            unknown = any(b is None for b in vb)
+            # where the magnitude comes from: input bits of the value that is negated, at its definition
+            key = "RF-BITS:%s:sign-test" % f.name
+            if unknown or not dep:
+                run.note("%s: the condition `%s` of the sign branch is not a pure function of input bits: not decided"
+                         % (f.name, ex.pretty(f, cond)))
+                continue
+            mag = set()
+            from .. import linear
+            rd = linear.reaching_def(f, l["name"], i)
+            if rd is not None and rd[2] is not None:
+                mag = {(b[1], b[2]) for b in ev.ev({}, rd[2]) if isinstance(b, tuple) and b[0] == "in"}
+                # a product hides its factors: look at the factors as well (not below them: the raw byte has all bits)
+                st_ = [rd[2]]
+                while st_:
+                    m = ex.skip(f, st_.pop())
+                    me = f.exprs[m]
+                    while me["k"] == "cast":
+                        m = ex.skip(f, me["c"][0])
+                        me = f.exprs[m]
+                    mag |= {(b[1], b[2]) for b in ev.ev({}, m) if isinstance(b, tuple) and b[0] == "in"}
+                    if me["k"] == "bin" and me["op"] in ("*", "+", "-"):
+                        st_.extend(me["c"])
+            if len(dep) == 1 and not (set(dep) & mag):
+                run.holds("RF-BITS", key, "`%s = -%s` is decided by bit %d of %s alone" % (l["name"], l["name"], dep[0][1], dep[0][0]),
+                          ex.loc(f, i))
+            else:
+                run.violation("RF-BITS", key, "the branch that negates `%s` is taken on `%s`, which depends on %s: the sign of a "
+                              "sign-magnitude field is one bit; here %s" % (
+                                  l["name"], ex.pretty(f, cond), ", ".join("bit %d of %s" % (j, p_) for p_, j in dep),
+                                  "a magnitude bit also acts as sign" if set(dep) & mag else
+                                  "a reserved bit next to the sign bit flips the sign when it is set"),
+                              ex.loc(f, i), witness={"condition": ex.pretty(f, cond), "depends_on": ["%s.%d" % d for d in dep]})
+    run.floor("sign branches in vbi_decode_teletext_8301_local_time", n, 1)
+
 
 def _neg_selftest(ctx, run):
     from .. import selftest
